@@ -808,3 +808,8 @@ def _subplots(fr, args, kwargs):
 @model("matplotlib.pyplot.tight_layout", "matplotlib.pyplot.show", "matplotlib.pyplot.close")
 def _plt_noop(fr, args, kwargs):
     return None
+
+
+@model("numpy.searchsorted")
+def _searchsorted(fr, args, kwargs):
+    return N.searchsorted(args[0], args[1], kwargs.get("side", args[2] if len(args) > 2 else "left"))
